@@ -453,11 +453,12 @@ fn ratelayer_case(t: &[&str]) -> String {
     });
     let svc = RateLimitLayer::new(quota, mode).layer(inner);
     let rt = tokio::runtime::Builder::new_multi_thread().worker_threads(2).enable_all().build().unwrap();
-    let evs: Vec<(u64, u64)> = t[4..]
+    // <p>@<ms>[@<k>]: with a third field the request carries the route "/r<k>" (the quota is per peer, whatever it asks for)
+    let evs: Vec<(u64, u64, Option<u64>)> = t[4..]
         .iter()
         .map(|e| {
-            let (p, at) = e.split_once('@').unwrap();
-            (p.parse().unwrap(), at.parse().unwrap())
+            let f: Vec<&str> = e.split('@').collect();
+            (f[0].parse().unwrap(), f[1].parse().unwrap(), f.get(2).map(|k| k.parse().unwrap()))
         })
         .collect();
     let res = rt.block_on(async move {
@@ -467,15 +468,18 @@ fn ratelayer_case(t: &[&str]) -> String {
             evs.sort_by_key(|e| e.1);
         }
         let mut shared = svc.clone();
-        for (p, at) in evs {
+        for (p, at, route) in evs {
             let s = svc.clone();
             // in "+same" mode the call is made here, in time order, on the one shared value; only its future is spawned
             let pre = if same {
                 use tower::Service as _;
                 tokio::time::sleep_until(tokio::time::Instant::from_std(start + Duration::from_millis(at))).await;
-                let req = Request::new(Bytes::new())
+                let mut req = Request::new(Bytes::new())
                     .with_header("p", p.to_string())
                     .with_extension(peer(p));
+                if let Some(k) = route {
+                    req = req.with_route(format!("/r{k}"));
+                }
                 let sent = start.elapsed().as_nanos();
                 let fut = tower::ServiceExt::ready(&mut shared).await.unwrap().call(req);
                 Some((sent, fut))
@@ -487,9 +491,12 @@ fn ratelayer_case(t: &[&str]) -> String {
                     Some((sent, fut)) => (sent, fut.await),
                     None => {
                         tokio::time::sleep_until(tokio::time::Instant::from_std(start + Duration::from_millis(at))).await;
-                        let req = Request::new(Bytes::new())
+                        let mut req = Request::new(Bytes::new())
                             .with_header("p", p.to_string())
                             .with_extension(peer(p));
+                        if let Some(k) = route {
+                            req = req.with_route(format!("/r{k}"));
+                        }
                         let sent = start.elapsed().as_nanos();
                         (sent, s.oneshot(req).await)
                     }
